@@ -500,16 +500,23 @@ func TestVerifC34(t *testing.T) {
 	type plan struct {
 		length int
 		shapes []string
+		types  map[string]bool // nil = all types of the codec
 	}
 	var plans []plan
 	if quick {
-		plans = []plan{{1, c34Shapes}, {2, c34Shapes}, {3, c34Shapes[:3]}}
+		plans = []plan{{1, c34Shapes, nil}, {2, c34Shapes, nil}, {3, c34Shapes[:3], nil}}
 	} else {
-		plans = []plan{{1, c34Shapes}, {2, c34Shapes}, {3, c34Shapes}, {4, c34Shapes[:3]}}
+		// length 4 only over the types the readers distinguish (SEI / not SEI, parameter set / slice)
+		few := map[string]bool{"SPS": true, "IDR": true, "SEI": true, "PSEI": true, "SSEI": true}
+		plans = []plan{{1, c34Shapes, nil}, {2, c34Shapes, nil}, {3, c34Shapes, nil}, {4, c34Shapes[:3], few}}
 	}
 	planText := []string{}
 	for _, p := range plans {
-		planText = append(planText, fmt.Sprintf("len=%d over shapes %v", p.length, p.shapes))
+		tt := "all types"
+		if p.types != nil {
+			tt = "types SPS, IDR and the SEI types"
+		}
+		planText = append(planText, fmt.Sprintf("len=%d over %s x shapes %v", p.length, tt, p.shapes))
 	}
 	c.Set("sequence_plans", planText)
 
@@ -520,7 +527,16 @@ func TestVerifC34(t *testing.T) {
 		}
 		c.Set(cd.name+"_types", typeNames)
 		for _, p := range plans {
-			units := c34Units(cd.types, p.shapes)
+			types := cd.types
+			if p.types != nil {
+				types = nil
+				for _, td := range cd.types {
+					if p.types[td.Name] {
+						types = append(types, td)
+					}
+				}
+			}
+			units := c34Units(types, p.shapes)
 			if cd.name == "h265" && p.length <= 2 {
 				// an H.265 unit of one byte (incomplete header): bytes only
 				units = append(units, c34Unit{Type: "TRAIL", Shape: "1-byte", Data: []byte{0x02}})
